@@ -85,24 +85,23 @@ def op_fault_decode(a):
 
 
 # ---------------------------------------------------------------------------------------
-def _unit(u):
-    """-> (packed octets, decode(buffer) -> (reported length, repacked octets))"""
+def _unit(u, build=True):
+    """-> (packed octets, decode(buffer) -> (reported length, repacked octets)); build=False: the decoder alone (the unit's
+    parameters need not be something the library can construct)"""
     k, p = u["k"], u["p"]
     if k == "sph":
         from spacepackets.ccsds.spacepacket import SpacePacketHeader
-        o = _mk_hdr(p)
-
         def d(b):
             x = SpacePacketHeader.unpack(b)
             return x.header_len, x.pack()
-        return o.pack(), d
+        return _mk_hdr(p).pack() if build else None, d
     if k == "tc":
         from spacepackets.ecss.tc import PusTc
 
         def d(b):
             x = PusTc.unpack(b)
             return x.packet_len, x.pack()
-        return mk_tc(p).pack(), d
+        return (mk_tc(p).pack() if build else None), d
     if k in ("tm", "srv17"):
         from spacepackets.ecss.tm import PusTm
         from spacepackets.ecss.pus_17_test import Service17Tm
@@ -112,7 +111,7 @@ def _unit(u):
         def d(b):
             x = cls.unpack(b, n)
             return _inner_tm(x).packet_len, x.pack()
-        return mk_tm(p, "srv17" if k == "srv17" else "tm").pack(), d
+        return (mk_tm(p, "srv17" if k == "srv17" else "tm").pack() if build else None), d
     if k == "srv1":
         from spacepackets.ecss import pus_1_verification as S
         sw, ew = ops_srv1._widths(p)
@@ -121,38 +120,39 @@ def _unit(u):
         def d(b):
             x = S.Service1Tm.unpack(b, up)
             return x.pus_tm.packet_len, x.pack()
-        return ops_srv1.mk_srv1({"p": p, "via": "ctor"}).pack(), d
+        return (ops_srv1.mk_srv1({"p": p, "via": "ctor"}).pack() if build else None), d
     if k == "cds":
         from spacepackets.ccsds.time import CdsShortTimestamp
 
         def d(b):
             x = CdsShortTimestamp.unpack(b)
             return x.len_packed, x.pack()
-        return CdsShortTimestamp(p["days"], p["ms"]).pack(), d
+        return (CdsShortTimestamp(p["days"], p["ms"]).pack() if build else None), d
     if k == "reqid":
         from spacepackets.ecss.req_id import RequestId
 
         def d(b):
             x = RequestId.unpack(b)
             return len(x.pack()), x.pack()
-        return ops_srv1.mk_req(p).pack(), d
+        return (ops_srv1.mk_req(p).pack() if build else None), d
     if k == "cfdphdr":
         from spacepackets.cfdp.pdu.header import PduHeader
         from spacepackets.cfdp.defs import PduType, SegmentMetadataFlag
-        conf = mk_cfg({"crc": p["crc"], "large": p["large"], "mode": p["mode"], "segctrl": p["segctrl"], "dir": p["dir"],
-                       "src": p["src"], "dst": p["dst"], "seq": p["seq"]})
-
         def d(b):
             x = PduHeader.unpack(b)
             return x.header_len, x.pack()
-        return PduHeader(PduType(p["type"]), SegmentMetadataFlag(p["segmeta"]), p["dlen"], conf).pack(), d
+        if not build:
+            return None, d
+        conf = mk_cfg({"crc": p["crc"], "large": p["large"], "mode": p["mode"], "segctrl": p["segctrl"], "dir": p["dir"],
+                       "src": p["src"], "dst": p["dst"], "seq": p["seq"]})
+        return (PduHeader(PduType(p["type"]), SegmentMetadataFlag(p["segmeta"]), p["dlen"], conf).pack() if build else None), d
     if k == "lv":
         from spacepackets.cfdp.lv import CfdpLv
 
         def d(b):
             x = CfdpLv.unpack(b)
             return x.packet_len, x.pack()
-        return CfdpLv(bytes(p["v"])).pack(), d
+        return (CfdpLv(bytes(p["v"])).pack() if build else None), d
     if k == "tlv":
         from spacepackets.cfdp.tlv import CfdpTlv
         from spacepackets.cfdp.tlv.defs import TlvType
@@ -160,28 +160,28 @@ def _unit(u):
         def d(b):
             x = CfdpTlv.unpack(b)
             return x.packet_len, x.pack()
-        return CfdpTlv(TlvType(p["t"]), bytes(p["v"])).pack(), d
+        return (CfdpTlv(TlvType(p["t"]), bytes(p["v"])).pack() if build else None), d
     if k == "ctlv":
         c = ctlv_class(p["cls"])
 
         def d(b):
             x = c.unpack(b)
             return x.packet_len, x.pack()
-        return mk_ctlv(p["cls"], p["p"]).pack(), d
+        return (mk_ctlv(p["cls"], p["p"]).pack() if build else None), d
     if k == "uslphdr":
         c = ops_uslp._hdr_cls(p["trunc"])
 
         def d(b):
             x = c.unpack(b)
             return x.len(), x.pack()
-        return ops_uslp.mk_hdr(p).pack(), d
+        return (ops_uslp.mk_hdr(p).pack() if build else None), d
     if k == "pdu":
         c = pdu_class(p["kind"])
 
         def d(b):
             x = c.unpack(b)
             return x.packet_len, x.pack()
-        return mk_pdu(p["kind"], p["cfg"], p["p"])[0].pack(), d
+        return (mk_pdu(p["kind"], p["cfg"], p["p"])[0].pack() if build else None), d
     raise ValueError(k)
 
 
@@ -292,6 +292,28 @@ def _entry(ep, par):
     raise ValueError(ep)
 
 
+def op_sfx_foreign(a):
+    """A unit given as octets (possibly something only a foreign implementation produces) followed by a suffix: reported length
+    and equality with the decoding of the unit alone."""
+    from .core import rxbuf
+
+    def run():
+        _, d = _unit(a["u"], build=False)
+        unit = bytes(a["octets"])
+        n, again = d(rxbuf(unit, a["sfx"]))
+        try:
+            alone = guarded(lambda: d(unit))
+            same = (int(alone[0]), bytes(alone[1])) == (int(n), bytes(again))
+        except BaseException as e:  # noqa
+            if isinstance(e, (KeyboardInterrupt, SystemExit)):
+                raise
+            same = False                      # accepted only because something follows
+        if a["u"]["k"] == "pdu":
+            return {"same": same}             # for complete PDUs the property speaks about the decoded content only
+        return {"n": int(n), "same": same}
+    return outcome(run)
+
+
 def op_rob_decode(a):
     def run():
         fn = _entry(a["ep"], a["par"])
@@ -302,4 +324,5 @@ def op_rob_decode(a):
     return outcome(run)
 
 
-OPS = {"fault.decode": op_fault_decode, "stream.split": op_stream_split, "rob.decode": op_rob_decode}
+OPS = {"fault.decode": op_fault_decode, "stream.split": op_stream_split, "rob.decode": op_rob_decode,
+       "sfx.foreign": op_sfx_foreign}
